@@ -88,6 +88,8 @@ def names_upto(segs, depth):
     return out
 
 
+TREETOP = "/tmp/c17tree"
+LINK = "/tmp/c17link"     # a symbolic link OUTSIDE the base that points at the base: another spelling of the base directory
 ABSDIR = "/tmp/c17abs"   # an absolute canary location without any dot segment
 DEEP = 45          # depth of the chain base/d/d/d/.. of existing directories (each holds a file `a`)
 
@@ -135,6 +137,10 @@ def gen_pure(chk):
     for b in BASES:
         for n in names:
             cases.append([0] + enc(b) + enc(n))
+    ab = TREETOP + "/root/base"
+    for n in base_names(ab):
+        for b in (ab, ab + "/", "base", TREETOP + "/root/./base", LINK, "/"):
+            cases.append([0] + enc(b) + enc(n))
     for n in long_names(rng, ABSDIR, 20000 if chk.thorough else 2000):
         for b in ("/srv/t", "t", "", "/srv/t/"):
             cases.append([0] + enc(b) + enc(n))
@@ -173,15 +179,19 @@ def body(tag):
 
 
 def make_tree():
-    top = os.path.join(CACHE, "c17-tree", "run")      # fixed paths (replays name them); runs are serialised by Lock("c17-tree")
+    # fixed paths (replays name them); runs are serialised by Lock("c17-tree").  The tree lives under /tmp so that the
+    # absolute base has no dot segment: names that spell out the base's own path are then not rejected for a hidden segment.
+    top = TREETOP
     shutil.rmtree(top, ignore_errors=True)
     root = os.path.join(top, "root")
     base = os.path.join(root, "base")
+    # (last line of `inside`: a replica of the base's own absolute path below the base - what `<base>/a` as a NAME legitimately denotes)
     inside = ["a", "a.", "a..b", "dir/a", "dir/a.", "dir/sub/a", "dir/dir/a", "sub/a", ".a", ".../a", "%2e%2e/a", "a\\b", "..\\a",
               "‥/a", "．．", "canary", "dir/canary", "sub/dir/a",
               # names that exist both inside and outside, the longest legal file name, blanks
               L255, "dir/" + L255, "a ", " a", "dir/sub/canary", "base/a", "root/base/a"] + \
-             ["d/" * k + "a" for k in range(1, DEEP + 1)] + ["d/sub/a", "d/d/sub/a", "d/canary"]
+             ["d/" * k + "a" for k in range(1, DEEP + 1)] + ["d/sub/a", "d/d/sub/a", "d/canary"] + \
+             [base.lstrip("/") + "/a", base.lstrip("/") + "/dir/a", root.lstrip("/") + "/canary", "base/canary"]
     outside = [os.path.join(root, "a"), os.path.join(root, "canary"), os.path.join(root, "dir", "a"), os.path.join(root, "sub", "a"),
                os.path.join(top, "a"), os.path.join(top, "canary"), os.path.join(root, "base2", "a"), os.path.join(root, "basea"),
                os.path.join(root, L255), os.path.join(root, "dir", L255), os.path.join(root, "dir", "sub", "a"), os.path.join(root, "dir", "sub", "canary"),
@@ -197,7 +207,29 @@ def make_tree():
     for i, p in enumerate(outside):
         os.makedirs(os.path.dirname(p), exist_ok=True)
         open(p, "w").write(body("CANARY%d" % i))
+    try:
+        os.remove(LINK)
+    except OSError:
+        pass
+    os.symlink(base, LINK)
     return top, base, absdir, tags, outside
+
+
+def base_names(base):
+    """Adversarial names derived from the base directory's own path: the base spelled out (as configured, canonical, with a
+    trailing slash or dot, through a symlink, relative, in another case, as a file: URL, its parent) followed by tails that
+    stay inside or climb out."""
+    root = os.path.dirname(base)
+    spell = [base, base + "/", base + "/.", root + "/./base", root + "//base", LINK, LINK + "/", "base", "./base", "base/", os.path.realpath(base), root, root + "/", os.path.dirname(root),
+             base.upper(), root + "/BASE", root + "/Base", "file://" + base, "file:" + base, "file://localhost" + base, base.lstrip("/"), "/" + base, "//" + base, base + "/../base",
+             root + "/base2/../base", "/tmp/../" + base.lstrip("/"), "\\" + base, base.replace("/", "\\")]
+    tails = ["", "/", "/a", "/dir/a", "/d/d/a", "/../canary", "/./../canary", "//../canary", "/sub/../../canary", "/../a", "/..", "/../", "/../base/a", "/.a", "/../base2/a", "/../basea",
+             "/d/d/../../../canary", "/../../canary", "/../../a", "/..\\canary", "/%2e%2e/canary", "/a/../../canary", "/\0/../canary", "/../canary\0", "/.././canary", "/dir/../../dir/a"]
+    out = []
+    for b in spell:
+        for t in tails:
+            out.append(b + t)
+    return out
 
 
 def gen_e2e(chk, base, absdir, outside):
@@ -208,7 +240,7 @@ def gen_e2e(chk, base, absdir, outside):
                 absdir + "/a", "/" + absdir + "/a", "//" + absdir.lstrip("/") + "/a", "dir/" + absdir + "/a"] + outside + \
                [os.path.relpath(o, base) for o in outside] + ["dir/" + os.path.relpath(o, os.path.join(base, "dir")) for o in outside] + \
                ["a/" + "../" * k + "canary" for k in range(1, 6)] + ["dir/sub/" + "../" * k + "a" for k in range(1, 7)] + TRICKY + \
-               long_names(rng, absdir, 6000 if chk.thorough else 600)
+               base_names(base) + long_names(rng, absdir, 6000 if chk.thorough else 600)
     names = targeted + names
     if chk.thorough:
         level = [[s] for s in SEGS_E2E]
@@ -218,7 +250,7 @@ def gen_e2e(chk, base, absdir, outside):
     hows = range(7)
     cases = []
     for j, n in enumerate(names):
-        if j < len(targeted) + 6174 and (j < 300 or j >= len(targeted) or j % 7 < 3 or chk.thorough):
+        if j < len(targeted) + 6174 and (j < 1100 or j >= len(targeted) or j % 7 < 3 or chk.thorough):
             for h in hows:
                 cases.append([1, h] + enc(n))
         else:
@@ -253,12 +285,13 @@ def gen_names2(chk, outside, base):
             [os.path.relpath(o, base) for o in outside] + [os.path.relpath(o, os.path.join(base, "dir")) for o in outside] + \
             [x for k in (1, 13, 14, 15, 16, 17, 18, 31, 40) for x in ("/" * k + "sub/../../canary", "/" * k + "d/a", "d/" * k + "../" * (k + 1) + "canary", "d/" * k + "a",
                                                                   "/" * k + "tmp/c17abs/a", "d/" * k + "/tmp/c17abs/a")] + names_upto(SEGS_E2E[:-1], 2)
+    names = names[:60] + [x for i, x in enumerate(base_names(base)) if i % 26 in (2, 5, 6, 7, 8, 9, 16) or chk.thorough] + names[60:]
     parents = ["main.html", "dir/main.html", "dir/sub/main.html", "../main.html", "/main.html", "x/y/z/main.html"]
     cases = []
     for j, n in enumerate(names):
         for cb in (0, 1, 2, 3):
             for how in (1, 2, 3, 4, 5):
-                if j >= 140 and not chk.thorough and (j + cb + how) % 3:
+                if j >= 60 + 200 and not chk.thorough and (j + cb + how) % 3:
                     continue
                 par = parents[(j + cb + how) % len(parents)] if cb else parents[(j + how) % 2]
                 cases.append((cb, how, par, n))
@@ -333,6 +366,10 @@ def main():
             shutil.rmtree(top, ignore_errors=True)
             shutil.rmtree(absdir, ignore_errors=True)
             try:
+                os.remove(LINK)
+            except OSError:
+                pass
+            try:
                 os.rmdir(os.path.join(CACHE, "c17-tree"))
             except OSError:
                 pass
@@ -388,14 +425,30 @@ def run_all(chk, mj, hooks, proofs_ok, top, base, absdir, tags, outside):
     else:
         e2e = gen_e2e(chk, base, absdir, outside)
     e2e_bad, e2e_mism = [], []
-    if e2e:
-        env = dict(ENV, C17_BASE=base)
-        mcases = [[0] + enc(base) + c[2:] for c in e2e]
+    root = os.path.dirname(base)
+    # the base directory handed to path_loader in different spellings: absolute (full name set), relative to the working
+    # directory, with a trailing slash, with a `.` component, through a symbolic link outside the base
+    configs = [("absolute", base, None), ("relative", "base", root), ("absolute with trailing slash", base + "/", None),
+               ("absolute with a . component", root + "/./base", None), ("symbolic link to the base", LINK, None), ("relative ./base/", "./base/", root)]
+    ntarget = sum(1 for c in e2e if c[1] == 0)
+    for ci, (label, cfg_base, cwd) in enumerate(configs):
+        if replay:
+            if replay.get("config", "absolute") != label:
+                continue
+            sub = e2e
+        else:
+            # the first configuration gets every name; the others the targeted names (traversal spellings, base-derived, long)
+            sub = e2e if ci == 0 else [c for c in e2e if len(c) < 400][:9000 if not chk.thorough else 40000]
+        if not sub:
+            continue
+        env = dict(ENV, C17_BASE=cfg_base)
+        mcases = [[0] + enc(cfg_base) + c[2:] for c in sub]
         mod_e = prun([mj, "c17"], mcases)
         real_base = os.path.realpath(base)
         for rel in (False, True):
-            outs = prun([bin_path("c17", rel)], e2e, env=env)
-            for i, c in enumerate(e2e):
+            cmd = [bin_path("c17", rel)] if cwd is None else ["sh", "-c", 'cd "$0" && exec "$1"', cwd, bin_path("c17", rel)]
+            outs = prun(cmd, sub, env=env)
+            for i, c in enumerate(sub):
                 o = outs[i]
                 how = c[1]
                 name, _ = dec(c, 2)
@@ -405,6 +458,8 @@ def run_all(chk, mj, hooks, proofs_ok, top, base, absdir, tags, outside):
                 if o and (o[0] == "CRASH" or o[0] == 2):
                     leaked = True
                 path = dec(mod_e[i], 1)[0] if mod_e[i][0] == 1 else None
+                if path is not None and cwd is not None:
+                    path = os.path.join(cwd, path)
                 exp = expected_e2e(how, path)
                 got = ("out", text) if text is not None else ("err", o[1]) if o and o[0] == 0 else ("none",) if o == [3] else ("?", o)
                 if text is not None and not leaked and text != "":
@@ -413,14 +468,18 @@ def run_all(chk, mj, hooks, proofs_ok, top, base, absdir, tags, outside):
                     if not m or not os.path.realpath(os.path.join(base, tags[m.group(0)])).startswith(real_base + os.sep):
                         leaked = True
                 if leaked:
-                    e2e_bad.append((i, rel, o))
+                    e2e_bad.append((c, rel, o, label))
                 elif got != exp:
-                    e2e_mism.append((i, rel, got, exp))
+                    e2e_mism.append((c, rel, got, exp, label))
                 if rel is False:
-                    hist["e2e:how=%d" % how] += 1
+                    hist["e2e:base=%s" % label] += 1
+                    if ci == 0:
+                        hist["e2e:how=%d" % how] += 1
                     hist["e2e:" + ("content" if got[0] == "out" and got[1] else "missing/unreadable")] += 1
                     if (got[0] == "out" and got[1]) or (name.count("/") >= 1 and ".." in name):
-                        nontriv.add(("e", how, name))
+                        nontriv.add(("e", ci, how, name))
+        chk.cov.setdefault("e2e_runs", 0)
+        chk.cov["e2e_runs"] += len(sub) * 2
     # ---------------- names computed inside templates, with and without a join callback ----------------
     n2_bad, n2_mism, n2_cases = [], [], 0
     if not replay or replay.get("part") == "names":
@@ -482,7 +541,7 @@ def run_all(chk, mj, hooks, proofs_ok, top, base, absdir, tags, outside):
             chk.violation("the name handed to the loader (or the result) differs from the model of State::get_template / join_template_path",
                           dict(d, theorem_or_correspondence="correspondence C17.Runner.run_names vs harness c17 (mode 2)", quad=list(quad[i]), profile="release" if rel else "debug"), True)
     # ---------------- evidence ----------------
-    chk.cov["evaluations"] = len(pure) * (3 if hooks else 1) + len(e2e) * 2 + n2_cases * 2
+    chk.cov["evaluations"] = len(pure) * (3 if hooks else 1) + chk.cov.get("e2e_runs", len(e2e) * 2) + n2_cases * 2
     chk.cov["distinct_nontrivial"] = len(nontriv)
     chk.cov["rule"] = ("pure part: safe_join (through hook H1) vs model on %d bases x all names of up to 3 segments over the property's 14-segment alphabet "
                        "('', '.', '..', '...', 'a', '.a', 'a.', 'a..b', 'a\\\\b', '..\\\\a', NUL, '%%2e%%2e', U+2025, 300 x 'a')%s plus seeded code-point noise; the "
@@ -518,18 +577,19 @@ def run_all(chk, mj, hooks, proofs_ok, top, base, absdir, tags, outside):
     for i, rel, o in pure_bad[:3]:
         chk.violation("safe_join accepts a name that resolves outside the base directory",
                       dict(show(pure[i]), case=pure[i], profile="release" if rel else "debug", implementation=o, how_to="./check C17 --replay <this file>"))
-    for i, rel, o in e2e_bad[:3]:
+    for c, rel, o, label in e2e_bad[:3]:
         chk.violation("the path loader returned the content of a file outside its base directory (or crashed)",
-                      dict(show(e2e[i]), case=e2e[i], profile="release" if rel else "debug", implementation=o[:40], how_to="./check C17 --replay <this file>"))
+                      dict(show(c), case=c, config=label, base_directory=dict((l, b) for l, b, _ in configs)[label], profile="release" if rel else "debug", implementation=o[:40],
+                           how_to="./check C17 --replay <this file>"))
     if not pure_bad and not e2e_bad:
         if pure_mism:
             i, rel = pure_mism[0]
             chk.violation("model and implementation of safe_join disagree", dict(show(pure[i]), theorem_or_correspondence="correspondence C17.Runner.run vs harness c17 (mode 0)",
                           case=pure[i], profile="release" if rel else "debug"), True)
         if e2e_mism:
-            i, rel, got, exp = e2e_mism[0]
-            chk.violation("loader model + file system and the engine disagree", dict(show(e2e[i]), theorem_or_correspondence="correspondence path_loader model vs harness c17 (mode 1)",
-                          case=e2e[i], got=got, expected=exp, profile="release" if rel else "debug"), True)
+            c, rel, got, exp, label = e2e_mism[0]
+            chk.violation("loader model + file system and the engine disagree", dict(show(c), theorem_or_correspondence="correspondence path_loader model vs harness c17 (mode 1)",
+                          case=c, config=label, got=got, expected=exp, profile="release" if rel else "debug"), True)
         if model_not_beneath:
             i = model_not_beneath[0]
             chk.violation("extracted model accepts a path not beneath the base although safe_join_beneath is proved", dict(show(pure[i]), theorem_or_correspondence="safe_join_beneath (extraction)", case=pure[i]), True)
